@@ -65,6 +65,17 @@ func main() {
 	closedUses := []string{}
 	recvWrites := []string{}
 	boltOpenArgs := []string{}
+	// decision logic, per property: the full (comment-free, whitespace-normalised) text of the small functions
+	// that decide plans, windows, counts and ranges
+	logicFns := map[string]string{
+		"clover..buildQueryPlan": "C08", "clover..tryToSelectIndex": "C02", "clover..getIndexQueries": "C02",
+		"clover.skipLimitNode.Callback": "C08", "clover.sortNode.Finish": "C08", "clover.sortNode.Callback": "C08", "clover..compareDocuments": "C08",
+		"clover.DB.countCollection": "C09", "clover.DB.Exists": "C09", "clover.DB.FindFirst": "C09", "clover.DB.Count": "C09",
+		"query..normalizeSortOptions": "C08", "query.Query.Skip": "C08", "query.Query.Limit": "C08", "query.Query.Sort": "C08",
+		"index.Range.IsEmpty": "C17", "index.Range.IsNil": "C17", "index.Range.Intersect": "C17",
+		"clover.iterNode.iterateIndex": "C02", "clover.iterNode.iterateFullCollection": "C02",
+	}
+	logic := map[string][]string{}
 	layout := []string{} // "pkg.func: <statements of the body>" for the functions that define the key layout and the type ranks
 	layoutFns := map[string]bool{"getCollectionKeyPrefix": true, "getCollectionKey": true, "getDocumentKeyPrefix": true, "getDocumentKey": true,
 		"getKeyPrefix": true, "getKeyPrefixForType": true, "getKey": true, "extractDocId": true, "TypeId": true, "compareTypes": true,
@@ -135,6 +146,9 @@ func main() {
 						order = append(order, key)
 						if dcl.Body == nil {
 							continue
+						}
+						if prop, ok := logicFns[pn+"."+f.recv+"."+f.name]; ok {
+							logic[prop] = append(logic[prop], pn+"."+f.recv+"."+f.name+": "+fullStr(dcl.Body))
 						}
 						if layoutFns[f.name] {
 							stmts := []string{}
@@ -329,6 +343,10 @@ func main() {
 	strList("receiverWrites", "assignments through a method receiver (all packages)", recvWrites)
 	sort.Strings(layout)
 	strList("keyLayout", "the functions that define the key layout, the type ranks and the key encoding dispatch, statement by statement", layout)
+	for _, prop := range []string{"C02", "C08", "C09", "C17"} {
+		sort.Strings(logic[prop])
+		strList("logic"+prop, "the decision logic behind "+prop+": full text of the functions that decide it (comments and layout removed)", logic[prop])
+	}
 	sb.WriteString("structure PanicSite where\n  file : String\n  fn : String\n  kind : String\n  expr : String\nderiving DecidableEq, Repr\n\n")
 	sb.WriteString("/-- unchecked type assertions and explicit panics, in source order -/\ndef panicSites : List PanicSite := [")
 	for i, s := range sites {
